@@ -17,14 +17,14 @@ import (
 
 // Violation is one observed breach of a property.
 type Violation struct {
-	Property string         `json:"property"`
-	Class    string         `json:"class"`   // short stable string: what was wrong, never values
-	Details  map[string]any `json:"details"` // what the known-findings matcher looks at
-	Msg      string         `json:"msg"`
-	Seed     uint64         `json:"seed"`
+	Property string          `json:"property"`
+	Class    string          `json:"class"`   // short stable string: what was wrong, never values
+	Details  map[string]any  `json:"details"` // what the known-findings matcher looks at
+	Msg      string          `json:"msg"`
+	Seed     uint64          `json:"seed"`
 	Spec     json.RawMessage `json:"spec,omitempty"` // minimised replayable spec
-	LogHash  string         `json:"log_hash,omitempty"`
-	Replay   string         `json:"replay,omitempty"`
+	LogHash  string          `json:"log_hash,omitempty"`
+	Replay   string          `json:"replay,omitempty"`
 }
 
 // Run records what one simulated execution did.
@@ -73,12 +73,12 @@ func (r *Run) Logf(format string, a ...any) {
 	r.Log = append(r.Log, fmt.Sprintf(format, a...))
 }
 
-func (r *Run) Eval(n int)          { r.st.Evaluations += n }
-func (r *Run) Fault(kind string)   { r.st.Faults[kind]++ }
-func (r *Run) Probe(name string)   { r.st.Probes[name]++ }
-func (r *Run) SimTime(s float64)   { r.st.SimTimeS += s }
-func (r *Run) Stats() *Stats       { return r.st }
-func (r *Run) Note(s string)       { r.st.Notes = append(r.st.Notes, s) }
+func (r *Run) Eval(n int)        { r.st.Evaluations += n }
+func (r *Run) Fault(kind string) { r.st.Faults[kind]++ }
+func (r *Run) Probe(name string) { r.st.Probes[name]++ }
+func (r *Run) SimTime(s float64) { r.st.SimTimeS += s }
+func (r *Run) Stats() *Stats     { return r.st }
+func (r *Run) Note(s string)     { r.st.Notes = append(r.st.Notes, s) }
 
 // Distinct records a non-trivial abstract case; the key is hashed.
 func (r *Run) Distinct(key string) {
